@@ -209,6 +209,10 @@ theorem one_channel_per_session (bound : Nat) (ops : List Op) (k1 k2 s : Nat)
     (g2 : get k2 (run bound CTab.empty ops).1.bySlot = some s) : k1 = k2 :=
   (run_inv bound ops CTab.empty empty_inv).sids k1 k2 s g1 g2
 
+/-- generated obligation: the table operations the model mirrors are present in connection/mod.rs, in
+    the model's order -/
+theorem source_channel_shape : sourceShape = true := by decide
+
 /-! ## non-vacuity -/
 
 /-- three sessions on peer channels 7, 0, 65535; the first is ended by both sides and its outgoing
